@@ -172,7 +172,13 @@ pub fn exec(op: &str, a: &[Vec<u8>]) -> Out {
         "ed.compressed_eq" => {
             let x = CompressedEdwardsY(need!(b32(&a[0])));
             let y = CompressedEdwardsY(need!(b32(&a[1])));
-            Out::Ok(vec![x.ct_eq(&y).unwrap_u8(), (x == y) as u8])
+            let hh = |c: &CompressedEdwardsY| {
+                use std::hash::{Hash, Hasher};
+                let mut s = std::collections::hash_map::DefaultHasher::new();
+                c.hash(&mut s);
+                s.finish()
+            };
+            Out::Ok(vec![x.ct_eq(&y).unwrap_u8(), (x == y) as u8, (hh(&x) == hh(&y)) as u8, IsIdentity::is_identity(&x) as u8])
         }
         _ => Out::Unknown,
     }
